@@ -84,7 +84,10 @@ impl Parser {
             ));
         }
 
+        // a select list of constants gets one row - but not a grouped query, whose rows are the groups
+        // (`select count(*) ... group by ext` needs no column either)
         if limit == 0
+            && grouping_fields.is_empty()
             && fields
                 .iter()
                 .all(|expr| expr.get_required_fields().is_empty())
